@@ -235,6 +235,7 @@ def _tam_cases(draw):
     ts = draw(st.lists(st.one_of(st.sampled_from([0.0, 0.25, 0.5, 1.0, 1 / 3, -0.2, 1.7]),
                                  st.floats(min_value=0, max_value=1)), min_size=T, max_size=T))
     return dict(s=s, sc=sc, ec=ec, pk=pk, points=points, t=ts, scalar=scalar,
+                int_kind=draw(st.sampled_from(["int", "int", "enum", "subclass"])),
                 metric=draw(st.sampled_from(METRICS)), callable_kind=draw(st.sampled_from(gen.CALLABLE_KINDS)),
                 then_shift=draw(st.sampled_from([0, 0, 1, -2, 3])))
 
@@ -272,6 +273,12 @@ def _tam_compare(case, o, pos, neg, tag):
     t_in = float(case["t"][0]) if case["scalar"] else np.asarray(case["t"], dtype=float)
     pk = case["pk"]
     pts_arg = None if pk == "none" else (case["points"] if pk == "int" else np.asarray(case["points"], dtype=float))
+    if pk == "int" and case.get("int_kind", "int") != "int":
+        # the number of grid points as an instance of an int subclass (a named constant)
+        import enum
+
+        pts_arg = (enum.IntEnum("Grid", {"size": case["points"]}).size if case["int_kind"] == "enum"
+                   else type("GridSize", (int,), {})(case["points"]))
     degenerate = (pk == "none" and len(allv) < 2) or (pk == "int" and (not allv or allv[0] >= allv[-1]))
     ctx = f"{tag}metric={case['metric']} points={case['points']} config={case['sc']}/{case['ec']} pos={s['pos']} neg={s['neg']}"
     try:
